@@ -297,20 +297,20 @@ func main() {
 			addRR(bg.Random(r, nm, nt, np, true), "random")
 		}
 		// irregular subscriptions: a topic named twice, a topic the map lacks, lists as long as the topic map
-	irr := bg.IrregularSmall()
-	nirr := *n / 5
-	if *thorough {
-		nirr = len(irr)
-	}
-	for _, i := range r.Perm(len(irr)) {
-		if nirr == 0 {
-			break
+		irr := bg.IrregularSmall()
+		nirr := *n / 5
+		if *thorough {
+			nirr = len(irr)
 		}
-		nirr--
-		addRange(irr[i], "irregular")
-		addRR(irr[i], "irregular")
-	}
-	// degenerate round-robin inputs: the error answer
+		for _, i := range r.Perm(len(irr)) {
+			if nirr == 0 {
+				break
+			}
+			nirr--
+			addRange(irr[i], "irregular")
+			addRR(irr[i], "irregular")
+		}
+		// degenerate round-robin inputs: the error answer
 		addRR(bg.Input{}, "empty")
 		addRR(bg.Input{Members: []bg.Member{{ID: "m0"}}}, "empty")
 	}
@@ -403,55 +403,55 @@ func main() {
 			}
 		}
 		// irregular subscriptions (topic twice, topic the map lacks)
-	irrS := bg.IrregularSmall()
-	nis := *n / 10
-	for _, i := range r.Perm(len(irrS)) {
-		if nis == 0 {
-			break
-		}
-		nis--
-		addSticky(irrS[i], "irregular", "", 0, nil)
-	}
-	// a partition moved a->b in one rebalance is dropped from its topic, the next rebalance moves partitions of that topic b->a:
-	// movement records surviving from the previous call would redirect to the dropped partition
-	for c := 0; c < *n/40+2 && hangs == 0; c++ {
-		np := 4 + r.Intn(6)
-		mk := func(parts []int32, aAll bool) bg.Input {
-			all := map[string][]int32{"t": parts}
-			none := map[string][]int32{}
-			da, _ := sarama.BalanceStrategySticky.AssignmentData("", all, 7)
-			db, _ := sarama.BalanceStrategySticky.AssignmentData("", none, 7)
-			if !aAll {
-				da, db = db, da
+		irrS := bg.IrregularSmall()
+		nis := *n / 10
+		for _, i := range r.Perm(len(irrS)) {
+			if nis == 0 {
+				break
 			}
-			in := bg.Input{Members: []bg.Member{{ID: "a", Topics: []string{"t"}, Data: da}, {ID: "b", Topics: []string{"t"}, Data: db}},
-				Topics: []bg.Topic{{Name: "t", Parts: parts}}}
-			in.Normalize()
-			return in
+			nis--
+			addSticky(irrS[i], "irregular", "", 0, nil)
 		}
-		save := shared
-		ncase = 0 // both steps on the shared value
-		p1 := addSticky(mk(bg.Seq(np), true), "reuse-reverse", fmt.Sprintf("reuse-%d", c), 0, nil)
-		if p1 == nil {
-			continue
-		}
-		// drop the partitions b received
-		var rest []int32
-		dropped := map[int32]bool{}
-		for _, q := range p1["b"]["t"] {
-			dropped[q] = true
-		}
-		for _, q := range bg.Seq(np) {
-			if !dropped[q] {
-				rest = append(rest, q)
+		// a partition moved a->b in one rebalance is dropped from its topic, the next rebalance moves partitions of that topic b->a:
+		// movement records surviving from the previous call would redirect to the dropped partition
+		for c := 0; c < *n/40+2 && hangs == 0; c++ {
+			np := 4 + r.Intn(6)
+			mk := func(parts []int32, aAll bool) bg.Input {
+				all := map[string][]int32{"t": parts}
+				none := map[string][]int32{}
+				da, _ := sarama.BalanceStrategySticky.AssignmentData("", all, 7)
+				db, _ := sarama.BalanceStrategySticky.AssignmentData("", none, 7)
+				if !aAll {
+					da, db = db, da
+				}
+				in := bg.Input{Members: []bg.Member{{ID: "a", Topics: []string{"t"}, Data: da}, {ID: "b", Topics: []string{"t"}, Data: db}},
+					Topics: []bg.Topic{{Name: "t", Parts: parts}}}
+				in.Normalize()
+				return in
+			}
+			save := shared
+			ncase = 0 // both steps on the shared value
+			p1 := addSticky(mk(bg.Seq(np), true), "reuse-reverse", fmt.Sprintf("reuse-%d", c), 0, nil)
+			if p1 == nil {
+				continue
+			}
+			// drop the partitions b received
+			var rest []int32
+			dropped := map[int32]bool{}
+			for _, q := range p1["b"]["t"] {
+				dropped[q] = true
+			}
+			for _, q := range bg.Seq(np) {
+				if !dropped[q] {
+					rest = append(rest, q)
+				}
+			}
+			if len(rest) >= 2 && shared == save {
+				ncase = 0
+				addSticky(mk(rest, false), "reuse-reverse", fmt.Sprintf("reuse-%d", c), 1, nil)
 			}
 		}
-		if len(rest) >= 2 && shared == save {
-			ncase = 0
-			addSticky(mk(rest, false), "reuse-reverse", fmt.Sprintf("reuse-%d", c), 1, nil)
-		}
-	}
-	nchains := *n / 6
+		nchains := *n / 6
 		for c := 0; c < nchains; c++ {
 			kind := []string{"honest", "honest", "stale", "forged"}[c%4]
 			nm, nt, mp := 1+r.Intn(5), 1+r.Intn(3), 6
